@@ -2134,7 +2134,8 @@ double BW_MidiSequencer::Tick(double s, double granularity)
     if(m_currentPosition.wait < 0.0) // Avoid negative delay value!
         return 0.0;
 
-    return m_currentPosition.wait;
+    // The caller waits in real time: the song time left is shortened by the tempo multiplier
+    return m_currentPosition.wait / m_tempoMultiplier;
 }
 
 
@@ -2215,7 +2216,7 @@ double BW_MidiSequencer::seek(double seconds, const double granularity)
     m_time.delay = m_currentPosition.wait;
 
     m_loopEnabled = loopFlagState;
-    return m_currentPosition.wait;
+    return m_currentPosition.wait / m_tempoMultiplier;
 }
 
 double BW_MidiSequencer::tell()
